@@ -1,6 +1,6 @@
 (* C02 - no history of snapshot / delete / clean damages a remaining snapshot. *)
 From Coq Require Import List Arith Bool.
-From Replicat Require Import Model.Repo Proofs.RepoProofs Proofs.RepoTie Gen.RepoFacts.
+From Replicat Require Import Model.Repo Proofs.RepoProofs Proofs.RepoLink Proofs.RepoTie Gen.RepoFacts.
 Import ListNotations.
 
 (* every backend step of every command, in any interleaving of overlapping snapshot runs, with
@@ -22,6 +22,21 @@ Print Assumptions C02_from_empty.
 Theorem C02_run_safe : forall ops st, Inv st -> Inv (run ops st).
 Proof. exact run_Inv. Qed.
 Print Assumptions C02_run_safe.
+
+(* the sequential commands the correspondence harness runs and lifts are themselves histories of the
+   interleaving relation (chunk lists compared as sets) *)
+Theorem C02_exec_snapshot_is_a_history : forall st u f id tab,
+  exists st', reachable (quiescent st) (quiescent st') /\ store_equiv st' (fst (exec st (OSnap u f id tab))).
+Proof. exact exec_snapshot_is_a_history. Qed.
+Theorem C02_exec_delete_is_a_history : forall st u f ids st', exec st (ODel u f ids) = (st', true) ->
+  exists st'', reachable (quiescent st) (quiescent st'') /\ store_equiv st'' st'.
+Proof. exact exec_delete_is_a_history. Qed.
+Theorem C02_exec_clean_is_a_history : forall st f,
+  exists st'', reachable (quiescent st) (quiescent st'') /\ store_equiv st'' (fst (exec st (OClean f))).
+Proof. exact exec_clean_is_a_history. Qed.
+Print Assumptions C02_exec_snapshot_is_a_history.
+Print Assumptions C02_exec_delete_is_a_history.
+Print Assumptions C02_exec_clean_is_a_history.
 
 Theorem C02_source_facts : all_repo_facts = true.
 Proof. exact repo_facts_hold. Qed.
